@@ -354,6 +354,7 @@ func (r *runner) close() { r.stop(); r.sock.Shutdown() }
 
 func (r *runner) snapshot(st *rawStep) pppoe.VerifC04Snap {
 	sn := r.srv.VerifC04Snapshot()
+	recs := r.srv.VerifC04Records()
 	var fps []string
 	for _, s := range sn.Sessions {
 		if _, ok := r.inst[s.SessionID]; !ok {
@@ -363,9 +364,16 @@ func (r *runner) snapshot(st *rawStep) pppoe.VerifC04Snap {
 		if s.ClientIP != nil {
 			ip = fmt.Sprintf("(Some %d)", ipN(s.ClientIP))
 		}
-		st.sess = append(st.sess, fmt.Sprintf("S %d %d %d %s %s %d %d %d %d", s.ID, macN(s.ClientMAC), s.State,
-			vh.Bool(s.Authenticated), ip, s.LCPIdentifier, s.PacketsIn, s.PacketsOut, r.inst[s.SessionID]))
-		fps = append(fps, fmt.Sprintf("%d/%d/%d/%v/%s/%d", s.ID, macN(s.ClientMAC), s.State, s.Authenticated, ip, r.inst[s.SessionID]))
+		rec := recs[s.SessionID]
+		hu := "None"
+		if rec.HasHostUniq {
+			hu = "(Some " + vh.Bytes(rec.HostUniq) + ")"
+		}
+		st.sess = append(st.sess, fmt.Sprintf("S %d %d %d %s %s %d %d %d %d %s %s %s", s.ID, macN(s.ClientMAC), s.State,
+			vh.Bool(s.Authenticated), ip, s.LCPIdentifier, s.PacketsIn, s.PacketsOut, r.inst[s.SessionID],
+			hu, vh.Str(rec.ServiceName), vh.Str(rec.Username)))
+		fps = append(fps, fmt.Sprintf("%d/%d/%d/%v/%s/%d/%s/%s/%s", s.ID, macN(s.ClientMAC), s.State, s.Authenticated, ip, r.inst[s.SessionID],
+			hu, rec.ServiceName, rec.Username))
 	}
 	type kv struct{ k, v uint64 }
 	var mi []kv
@@ -602,6 +610,106 @@ func sess(src, sid, proto int, l string, payload []byte) Frame {
 }
 
 var cookie = Tag{T: 0x0104, V: []byte{1, 2, 3, 4}}
+var huU = Tag{T: 0x0103, V: []byte("U")}
+
+// ---------------------------------------------------------------- discovery stream
+//
+// The non-owner clause for DISCOVERY frames: a victim (peer 0) whose PADR carried Service-Name
+// "internet", Host-Uniq "AA" and an AC-Cookie is brought to each session state; then one discovery
+// frame with every combination of code x Host-Uniq (absent / the victim's / another / empty) x
+// AC-Cookie (the victim's / absent) x Service-Name (absent / the victim's / empty / another) x
+// session-id field (0 / the victim's / another) is sent from the other station (and, as a control, from
+// the victim itself), followed by an echo on each session id so that a redirected or reset session shows.
+func victimPADR(src int) Frame {
+	return disc(src, 0x19, 0, "padr", Tag{T: 0x0101, V: []byte("internet")}, Tag{T: 0x0103, V: []byte("AA")}, cookie)
+}
+
+func discoveryPrefixes(thorough bool) map[string][]Frame {
+	confack := func(sid int) Frame { return sess(0, sid, 0xC021, "lcp-confack", ctl(2, 1, nil)) }
+	papGood := func(sid int) Frame { return sess(0, sid, 0xC023, "pap-good", papReq(4, "acc-user", "good")) }
+	ipcpAck := func(sid int) Frame { return sess(0, sid, 0x8021, "ipcp-confack", ctl(2, 1, nil)) }
+	m := map[string][]Frame{
+		"lcp":          {victimPADR(0)},
+		"established":  {victimPADR(0), confack(1), papGood(1), ipcpAck(1)},
+		"rejected":     {victimPADR(0), sess(0, 1, 0xC023, "pap-bad", papReq(5, "acc-user", "bad"))},
+		"two-sessions": {victimPADR(0), victimPADR(0), confack(2), papGood(2), ipcpAck(2)},
+	}
+	if thorough {
+		m["auth"] = []Frame{victimPADR(0), confack(1)}
+		m["ipcp"] = []Frame{victimPADR(0), confack(1), papGood(1)}
+		m["both-stations"] = []Frame{victimPADR(0), victimPADR(1), confack(1), papGood(1), ipcpAck(1)}
+	}
+	return m
+}
+
+func discoveryProbes(src int, full bool) []Frame {
+	hus := []*Tag{nil, {T: 0x0103, V: []byte("AA")}, {T: 0x0103, V: []byte("BB")}, {T: 0x0103, V: []byte{}}}
+	svcs := []*Tag{nil, {T: 0x0101, V: []byte("internet")}, {T: 0x0101, V: []byte{}}, {T: 0x0101, V: []byte("video")}}
+	var out []Frame
+	mk := func(code, sid int, l string, sv, hu *Tag, ck bool) {
+		f := Frame{Src: src, Dst: 1, Et: "disc", Code: code, Sid: sid, L: l}
+		if code == 0x09 {
+			f.Dst = 0
+		}
+		if sv != nil {
+			f.Tags = append(f.Tags, *sv)
+		}
+		if hu != nil {
+			f.Tags = append(f.Tags, *hu)
+		}
+		if ck {
+			f.Tags = append(f.Tags, cookie)
+		}
+		out = append(out, f)
+	}
+	for _, code := range []int{0x09, 0x19} {
+		l := map[int]string{0x09: "x-padi", 0x19: "x-padr"}[code]
+		for hi, hu := range hus {
+			for _, ck := range []bool{true, false} {
+				for si, sv := range svcs {
+					for _, sid := range []int{0, 1, 2} {
+						if !full && !(hi == 1 && si <= 1) { // control from the owner: its own tags only
+							continue
+						}
+						mk(code, sid, l, sv, hu, ck)
+					}
+				}
+			}
+		}
+	}
+	for _, sid := range []int{0, 1, 2} {
+		mk(0xA7, sid, "x-padt", nil, nil, false)
+		mk(0xA7, sid, "x-padt", nil, hus[1], true)
+	}
+	for _, code := range []int{0x07, 0x65} {
+		for _, sid := range []int{0, 1} {
+			mk(code, sid, "x-pado-pads", svcs[1], hus[1], true)
+		}
+	}
+	return out
+}
+
+func discoveryCases(thorough bool) []Case {
+	cfg := Cfg{Radius: true, Pool: "10.1.0.0/29", Gateway: "10.1.0.1", DNS1: "9.9.9.9"}
+	pres := discoveryPrefixes(thorough)
+	var names []string
+	for n := range pres {
+		names = append(names, n)
+	}
+	sort.Strings(names)
+	echo := func(src, sid int) Frame { return sess(src, sid, 0xC021, "lcp-echo", ctl(9, 3, []byte{9, 9, 9, 9})) }
+	var cs []Case
+	for _, n := range names {
+		for src := 1; src >= 0; src-- {
+			for _, pr := range discoveryProbes(src, src == 1 || thorough) {
+				fr := append(append([]Frame{}, pres[n]...), pr)
+				fr = append(fr, echo(0, 1), echo(0, 2), echo(1, 2), echo(1, 3))
+				cs = append(cs, Case{Cfg: cfg, Frames: fr})
+			}
+		}
+	}
+	return cs
+}
 
 // the property's alphabet for one (source peer, session id) pair
 func perSession(src, sid int) []Frame {
@@ -626,8 +734,11 @@ func perSession(src, sid int) []Frame {
 func alphabet(peers int, sids, unknown []int) []Frame {
 	var a []Frame
 	for p := 0; p < peers; p++ {
-		a = append(a, Frame{Src: p, Dst: 0, Et: "disc", Code: 0x09, L: "padi", Tags: []Tag{{T: 0x0101, V: []byte{}}}})
-		a = append(a, disc(p, 0x19, 0, "padr", Tag{T: 0x0101, V: []byte{}}, cookie))
+		// both peers use the same Host-Uniq and Service-Name, and put the first session's id into the
+		// (ignored) session-id field of their PADI/PADR: what one station sends in discovery must never
+		// touch the other's session
+		a = append(a, Frame{Src: p, Dst: 0, Et: "disc", Code: 0x09, Sid: 1, L: "padi", Tags: []Tag{{T: 0x0101, V: []byte{}}, huU}})
+		a = append(a, disc(p, 0x19, 1, "padr", Tag{T: 0x0101, V: []byte("internet")}, huU, cookie))
 		for _, s := range sids {
 			a = append(a, perSession(p, s)...)
 		}
@@ -668,6 +779,61 @@ func exhaustive(cfg Cfg, depth int, alpha []Frame) ([]rawCase, int) {
 	return all, len(seen)
 }
 
+// ---------------------------------------------------------------- re-authentication stream
+//
+// Every sequence of up to three PAP exchanges on one session with every RADIUS outcome (accept, reject by
+// password, reject by user, Access-Challenge = client error; one timeout per sequence position in
+// quick, as a full outcome in thorough), each followed by every way the owner can then ask for IP
+// service. The property: IPCP is acknowledged / the session Established only while the LATEST exchange
+// is an accepted one.
+func reauthCases(thorough bool) []Case {
+	cfg := Cfg{Radius: true, Pool: "10.1.0.0/29", Gateway: "10.1.0.1", DNS1: "9.9.9.9"}
+	type oc struct{ l, user, pass string }
+	ocs := []oc{{"pap-good", "acc-user", "good"}, {"pap-bad", "acc-user", "bad"}, {"pap-radius-reject", "rej-user", "good"},
+		{"pap-radius-error", "chal-user", "good"}}
+	drop := oc{"pap-radius-timeout", "drop-user", "good"}
+	if thorough {
+		ocs = append(ocs, drop)
+	}
+	var seqs [][]oc
+	var rec func(pre []oc, n int)
+	rec = func(pre []oc, n int) {
+		if len(pre) > 0 {
+			seqs = append(seqs, append([]oc{}, pre...))
+		}
+		if n == 0 {
+			return
+		}
+		for _, o := range ocs {
+			rec(append(pre, o), n-1)
+		}
+	}
+	rec(nil, 3)
+	if !thorough {
+		seqs = append(seqs, []oc{drop}, []oc{ocs[0], drop}, []oc{drop, ocs[0]}, []oc{ocs[0], drop, ocs[3]})
+	}
+	confack := sess(0, 1, 0xC021, "lcp-confack", ctl(2, 1, nil))
+	ipReq := sess(0, 1, 0x8021, "ipcp-confreq-noaddr", ctl(1, 8, nil))
+	ipReqA := sess(0, 1, 0x8021, "ipcp-confreq-addr", ctl(1, 6, opt(3, 10, 9, 9, 9)))
+	ipAck := sess(0, 1, 0x8021, "ipcp-confack", ctl(2, 1, nil))
+	ip := sess(0, 1, 0x0021, "ip", []byte{0x45, 0, 0, 20})
+	tails := [][]Frame{{ipReq, ipAck, ip}, {ipAck, ipReqA}, {confack, ipReq, ipAck}}
+	var cs []Case
+	for _, sq := range seqs {
+		for ti, tl := range tails {
+			fr := []Frame{victimPADR(0), victimPADR(1), confack}
+			for i, o := range sq {
+				fr = append(fr, sess(0, 1, 0xC023, o.l, papReq(10+i, o.user, o.pass)))
+				if ti == 2 && i+1 < len(sq) { // the owner asks for IP service between the exchanges too
+					fr = append(fr, ipAck)
+				}
+			}
+			cs = append(cs, Case{Cfg: cfg, Frames: append(fr, tl...)})
+		}
+	}
+	return cs
+}
+
 // ---------------------------------------------------------------- random histories
 
 func randFrame(r *vh.Rng, peers int, sids []int) Frame {
@@ -676,10 +842,10 @@ func randFrame(r *vh.Rng, peers int, sids []int) Frame {
 	var f Frame
 	switch x := r.Intn(100); {
 	case x < 6:
-		f = Frame{Src: src, Dst: r.Intn(2), Et: "disc", Code: 0x09, L: "padi"}
+		f = Frame{Src: src, Dst: r.Intn(2), Et: "disc", Code: 0x09, Sid: []int{0, 0, sid}[r.Intn(3)], L: "padi"}
 		switch r.Intn(4) {
 		case 0:
-			f.Tags = []Tag{{T: 0x0101, V: []byte("internet")}, {T: 0x0103, V: r.Bytes(r.Intn(5))}}
+			f.Tags = []Tag{{T: 0x0101, V: []byte("internet")}, randHostUniq(r)}
 		case 1:
 			f.Tags = []Tag{{T: 0x0101, V: []byte("video")}}
 			f.L = "padi-wrong-service"
@@ -687,9 +853,17 @@ func randFrame(r *vh.Rng, peers int, sids []int) Frame {
 			f.Tags = []Tag{{T: 0x0103, V: []byte{}}}
 		}
 	case x < 20:
-		f = disc(src, 0x19, r.Intn(3), "padr", Tag{T: 0x0101, V: []byte("internet")}, cookie)
-		if r.Chance(1, 3) {
-			f.Tags = append(f.Tags, Tag{T: 0x0103, V: r.Bytes(r.Intn(4))})
+		f = disc(src, 0x19, r.Intn(3), "padr", Tag{T: 0x0101, V: [][]byte{[]byte("internet"), []byte("internet"), {}, []byte("video")}[r.Intn(4)]}, cookie)
+		if r.Chance(1, 6) {
+			f.Tags = f.Tags[1:] // no Service-Name
+		}
+		if r.Chance(1, 2) { // Host-Uniq from a small set shared by all peers: collisions are the norm
+			hu := randHostUniq(r)
+			if r.Bool() {
+				f.Tags = append(f.Tags, hu)
+			} else {
+				f.Tags = append([]Tag{hu}, f.Tags...)
+			}
 		}
 		if r.Chance(1, 8) {
 			f.Tags = f.Tags[:1]
@@ -697,6 +871,9 @@ func randFrame(r *vh.Rng, peers int, sids []int) Frame {
 		}
 	case x < 26:
 		f = disc(src, 0xA7, sid, "padt")
+		if r.Chance(1, 3) {
+			f.Tags = []Tag{randHostUniq(r), cookie}
+		}
 	case x < 28:
 		f = disc(src, []int{0x07, 0x65, 0x00, 0x42}[r.Intn(4)], sid, "disc-other-code")
 	case x < 92:
@@ -746,6 +923,18 @@ func randFrame(r *vh.Rng, peers int, sids []int) Frame {
 	return f
 }
 
+func randHostUniq(r *vh.Rng) Tag {
+	switch r.Intn(5) {
+	case 0:
+		return Tag{T: 0x0103, V: []byte{}}
+	case 1, 2:
+		return Tag{T: 0x0103, V: []byte("A")}
+	case 3:
+		return Tag{T: 0x0103, V: []byte("B")}
+	}
+	return Tag{T: 0x0103, V: r.Bytes(1 + r.Intn(3))}
+}
+
 func randCfg(r *vh.Rng) Cfg {
 	c := Cfg{Radius: r.Chance(2, 3), Chap: r.Chance(1, 6)}
 	switch r.Intn(6) {
@@ -774,9 +963,15 @@ func randCase(r *vh.Rng, maxLen int) Case {
 	sids := []int{1, 2, 3, 7}
 	n := 1 + r.Intn(maxLen)
 	if r.Chance(2, 3) {
-		c.Frames = append(c.Frames, disc(0, 0x19, 0, "padr", cookie))
+		open := func(p int) Frame { return disc(p, 0x19, 0, "padr", cookie) }
 		if r.Chance(1, 2) {
-			c.Frames = append(c.Frames, disc(1, 0x19, 0, "padr", cookie))
+			open = func(p int) Frame {
+				return disc(p, 0x19, 0, "padr", Tag{T: 0x0101, V: []byte("internet")}, Tag{T: 0x0103, V: []byte("A")}, cookie)
+			}
+		}
+		c.Frames = append(c.Frames, open(0))
+		if r.Chance(1, 2) {
+			c.Frames = append(c.Frames, open(1))
 		}
 		if r.Chance(1, 2) {
 			c.Frames = append(c.Frames, sess(0, 1, 0xC021, "lcp-confack", ctl(2, 1, nil)))
@@ -845,6 +1040,32 @@ func main() {
 			corpus = append(corpus, vc)
 		}
 		vh.Emit(cfg, "corpus", header, foot, corpus, nil)
+	}
+
+	// discovery stream (exhaustive over the tag / code / session-id-field combinations of one discovery frame)
+	{
+		dit := newInterner()
+		var dc []vh.Case
+		for _, rc := range runMany(discoveryCases(cfg.Thorough())) {
+			dc = append(dc, dit.build(rc))
+		}
+		dcfg := cfg
+		dcfg.Shard = 300
+		vh.Emit(dcfg, "discovery", header, foot, dc, map[string]interface{}{"exhaustive": true,
+			"space": "victim state x sender (other station / owner) x code {PADI,PADR,PADT,PADO,PADS} x Host-Uniq {absent, victim's, other, empty} x AC-Cookie {present, absent} x Service-Name {absent, victim's, empty, other} x session-id field {0, victim's, other}"})
+	}
+
+	// re-authentication stream
+	{
+		rit := newInterner()
+		var rc2 []vh.Case
+		for _, rc := range runMany(reauthCases(cfg.Thorough())) {
+			rc2 = append(rc2, rit.build(rc))
+		}
+		rcfg := cfg
+		rcfg.Shard = 300
+		vh.Emit(rcfg, "reauth", header, foot, rc2, map[string]interface{}{"exhaustive": true,
+			"space": "sequences of 1..3 PAP exchanges on one session over the RADIUS outcomes {accept, reject (password), reject (user), error (Access-Challenge)} (+ timeout: selected sequences in quick, full outcome in thorough) x three continuations by the owner (IPCP request/ack/IP; IPCP ack then request; LCP ack, IPCP request/ack), a second station's session alongside"})
 	}
 
 	// exhaustive stream
